@@ -65,3 +65,36 @@ Example C15_exact_example :
   let s := rtt_update (rtt_update (rtt_new 500000000 1000000) 100000000) 40000000 in
   (rc_srtt s, rc_rttvar s, rc_rto s) = (92499999, 52500001, 302499992).
 Proof. exact RttExactProofs.rfc6298_numbers_f32. Qed.
+
+(* ---- the exact estimator stays within the property's tolerance of the RFC 6298 value, for EVERY sequence of samples
+   (Proofs/F32Bounds.v: the rounding function is a correct round-to-nearest-even with relative error 2^-24; every
+   Duration::mul_f32 by one of the five constants is within c * ns * (2^-22 + 2^-45) + 1/2 ns of the exact product; the
+   errors of the recurrences contract; the invariants are polyhedra checked by lia) *)
+From Coq Require Import ZArith.
+From Rustun Require Import Proofs.F32Bounds.
+(* a product *)
+Theorem C15_mul_f32_error : forall ns c p q, cst c p q ->
+  (2 ^ 45 * Z.abs (ZN q * ZN (mul_f32 ns c) - ZN p * ZN ns) <= (2 ^ 23 + 1) * (ZN p * ZN ns) + 2 ^ 44 * ZN q)%Z.
+Proof. exact F32Bounds.mul_f32_bound. Qed.
+Print Assumptions C15_mul_f32_error.
+(* samples between 1 ms and 650 ms, any number of them, any configured RTO and granularity: the interval computed by the
+   exact model is within 1e-5 relative + 1 us (the property's tolerance, Monitors.within_tolerance) of the RFC 6298 value *)
+Theorem C15_exact_within_tolerance : forall (c:ccfg) rto gran (rs:list N),
+  cc_gran c = gran -> cc_rto c = rto -> (forall r, In r rs -> 1000000 <= r <= 650000000) ->
+  within_tolerance (fx (rc_rto (run (rtt_new rto gran) rs))) (rfc6298_rto c (ref_run None rs)) = true.
+Proof. exact F32Bounds.global_1ms_650ms. Qed.
+Print Assumptions C15_exact_within_tolerance.
+(* the same with resets (staleness) anywhere between the samples *)
+Theorem C15_exact_within_tolerance_resets : forall (c:ccfg) rto gran (os:list eop),
+  cc_gran c = gran -> cc_rto c = rto -> Forall (eop_ok 1000000 650000000) os ->
+  within_tolerance (fx (rc_rto (run_ops (rtt_new rto gran) os))) (rfc6298_rto c (ref_ops None os)) = true.
+Proof. exact F32Bounds.global_1ms_650ms_ops. Qed.
+Print Assumptions C15_exact_within_tolerance_resets.
+(* samples up to 10 s: proved within twice the tolerance (2e-5 relative + 2 us); the worst-case bound of the analysis
+   reaches 1.48 times the tolerance on this range while the model itself, searched adversarially, stays below 35 % of it:
+   this part is C15_partial *)
+Theorem C15_exact_within_twice_tolerance_partial : forall (c:ccfg) rto gran (rs:list N),
+  cc_gran c = gran -> cc_rto c = rto -> (forall r, In r rs -> 1000000 <= r <= 10000000000) ->
+  within_tol 50000 2000 (fx (rc_rto (run (rtt_new rto gran) rs))) (rfc6298_rto c (ref_run None rs)) = true.
+Proof. exact F32Bounds.global_1ms_10s_x2. Qed.
+Print Assumptions C15_exact_within_twice_tolerance_partial.
